@@ -203,9 +203,9 @@ const (
 	urlBad   = "http://crl.example/%zz"
 )
 
-func uri(u string) gnameSpec  { return gnameSpec{uri: u} }
-func other(t byte) gnameSpec  { return gnameSpec{other: t} }
-func full(ns ...gnameSpec) dpSpec { return dpSpec{kind: "fullName", names: ns} }
+func uri(u string) gnameSpec        { return gnameSpec{uri: u} }
+func other(t byte) gnameSpec        { return gnameSpec{other: t} }
+func full(ns ...gnameSpec) dpSpec   { return dpSpec{kind: "fullName", names: ns} }
 func points(ps ...dpSpec) freshSpec { return freshSpec{kind: "points", points: ps} }
 
 // all freshest-CRL shapes: 0..3 locations, non-URI names, malformed DER
@@ -661,8 +661,12 @@ func genC18(r *Runner) {
 	cfgs := []fetchCfg{{false, false}, {true, false}, {true, true}}
 	simple := points(full(uri(urlD1), uri(urlD2)))
 	absent := freshSpec{kind: "absent"}
-	pub := func(u string, a srvAns, n string) fetchOp { return fetchOp{kind: "publish", url: u, ans: a, name: "publish " + n} }
-	crlAns := func(gen int, validity string, f freshSpec) srvAns { return srvAns{kind: "crl", item: pool.get(gen, validity, f)} }
+	pub := func(u string, a srvAns, n string) fetchOp {
+		return fetchOp{kind: "publish", url: u, ans: a, name: "publish " + n}
+	}
+	crlAns := func(gen int, validity string, f freshSpec) srvAns {
+		return srvAns{kind: "crl", item: pool.get(gen, validity, f)}
+	}
 	plant := func(n string, fn func(p *crlPool) *corecrl.Bundle) fetchOp {
 		return fetchOp{kind: "plant", url: urlBase, plant: fn, name: "cache entry: " + n}
 	}
